@@ -6,7 +6,7 @@ echo -e "seed\tproperty\texit\tverdict\tseconds" > $out
 for d in seeded/C*-*/; do
   id=$(basename $d); p=${id%-*}
   if ! git -C /repo diff --quiet; then echo "/repo dirty"; exit 2; fi
-  git -C /repo apply $d/patch.diff || { echo -e "$id\t$p\t-\tpatch-does-not-apply\t0" >> $out; continue; }
+  git -C /repo apply /verif/$d/patch.diff || { echo -e "$id\t$p\t-\tpatch-does-not-apply\t0" >> $out; continue; }
   t0=$(date +%s)
   o=$(./check $p quick 2>&1); rc=$?
   t1=$(date +%s)
